@@ -232,8 +232,19 @@ def scenario(cfg, src, symbolic: bool) -> List[str]:
         r1 = _run(lambda: setattr(m, alias, val))
         r2 = _run(lambda: setattr(m2, canon2, val))
     elif op == 'attr_write_seq':
+        ref1, ref2 = m.__dict__['_' + canon], m2.__dict__['_' + canon2]      # references taken BEFORE the assignment
         r1 = _run(lambda: setattr(m, alias, list(vals)))
         r2 = _run(lambda: setattr(m2, canon2, list(vals)))
+        # whole-series assignment has the same effect on earlier references through the alias as through the variable
+        # (the container stores a new array; an array handed out before keeps the old values)
+        if (m.__dict__['_' + canon] is ref1) != (m2.__dict__['_' + canon2] is ref2):
+            bad.append(f'whole-series assignment via alias {alias}: the stored array is '
+                       f"{'the same' if m.__dict__['_' + canon] is ref1 else 'a new'} object, via the variable it is "
+                       f"{'the same' if m2.__dict__['_' + canon2] is ref2 else 'a new'} one")
+    elif op == 'attr_write_badseq':
+        # a sequence of the wrong length: refused through the alias exactly as through the variable
+        r1 = _run(lambda: setattr(m, alias, list(vals)[:-1] if n > 1 else list(vals) * 2))
+        r2 = _run(lambda: setattr(m2, canon2, list(vals)[:-1] if n > 1 else list(vals) * 2))
     elif op == 'key_write':
         r1 = _run(lambda: m.__setitem__(alias, val))
         r2 = _run(lambda: m2.__setitem__(canon2, val))
@@ -262,7 +273,7 @@ def scenario(cfg, src, symbolic: bool) -> List[str]:
     elif op == 'evaluate':
         r1 = _run(lambda: m._evaluate(1 if n > 1 else 0))
         r2 = _run(lambda: m2._evaluate(1 if n > 1 else 0))
-    if op in ('attr_write', 'attr_write_seq', 'key_write', 'pos_write', 'label_write', 'slice_write', 'replace_values', 'evaluate'):
+    if op in ('attr_write', 'attr_write_seq', 'attr_write_badseq', 'key_write', 'pos_write', 'label_write', 'slice_write', 'replace_values', 'evaluate'):
         if r1[0] != r2[0] or (r1[0] == 'exc' and r1[1] != r2[1]):
             bad.append(f'{op} via alias {alias}: {r1[:2]} vs canonical {r2[:2]}')
     # all cells equal, no additional storage
@@ -333,7 +344,7 @@ def explore18(cfg: dict) -> dict:
     return res
 
 
-OPS = ['attr_read', 'attr_write', 'attr_write_seq', 'key_write', 'pos_write', 'label_write', 'slice_write', 'label_read', 'slice_read',
+OPS = ['attr_read', 'attr_write', 'attr_write_seq', 'attr_write_badseq', 'key_write', 'pos_write', 'label_write', 'slice_write', 'label_read', 'slice_read',
        'replace_values', 'evaluate', 'ctor_kw']
 
 
@@ -345,7 +356,7 @@ def configs(tier: str):
         for alias in names:
             if resolve(amap, alias) not in VARS:
                 continue
-            ops = OPS if (tier == 'thorough' or len(amap) <= 1) else ['attr_write', 'label_write', 'slice_read', 'evaluate', 'ctor_kw', 'attr_read']
+            ops = OPS if (tier == 'thorough' or len(amap) <= 1) else ['attr_write', 'attr_write_seq', 'attr_write_badseq', 'label_write', 'slice_read', 'evaluate', 'ctor_kw', 'attr_read']
             for op in ops:
                 for n in ((2 if op in ('slice_write', 'slice_read') else 3,) if tier == 'quick' else (1, 3, 4)):
                     out.append(cfg18(amap=amap, op=op, alias=alias, n=n))
